@@ -37,6 +37,21 @@ HELPERS = {
 }
 
 
+def _has_opaque(prog):
+    for s in prog["sites"]:
+        if s.get("prev") and "HasRepr" in s["prev"]:
+            return True
+        ds = []
+        for e in s["events"]:
+            ds += [e[0], e[2]] if s["op"] == "getitem" else [e]
+        if s.get("prev_desc") is not None:
+            ds.append(s["prev_desc"])
+        for d in ds:
+            if any(x[0] == "opaque" for x in gv.walk(d)):
+                return True
+    return False
+
+
 def cmp_expr(op, X, S, rev=False):
     if op == "eq":
         return f"{S} == {X}" if rev else f"{X} == {S}"
@@ -66,6 +81,8 @@ def render_program(prog):
     sites = prog["sites"]
     tests = prog.get("tests") or [list(range(len(sites)))]
     lines = list(prog.get("header") or HEADER)
+    if not prog.get("header") and _has_opaque(prog):
+        lines[0] = "from inline_snapshot import snapshot, HasRepr"
     site_line = {}
 
     used_helpers = []
